@@ -193,6 +193,19 @@ func (f *FS) PutQuiet(p string, data []byte) {
 	parent.kids[name] = n
 }
 
+// LinkQuiet makes newp a hard link to the file at oldp while building the initial tree.
+func (f *FS) LinkQuiet(oldp, newp string) {
+	n, _, _, errno := f.lookup(oldp)
+	if errno != 0 || n == nil || n.dir {
+		return
+	}
+	newp = clean(newp)
+	f.MkdirAllQuiet(path.Dir(newp))
+	_, parent, name, _ := f.lookup(newp)
+	parent.kids[name] = n
+	n.nlink++
+}
+
 // Peek returns the content of a file without recording anything.
 func (f *FS) Peek(p string) (data []byte, isDir, ok bool) {
 	n, _, _, errno := f.lookup(p)
